@@ -123,7 +123,7 @@ Definition hdr_rules_ok : bool :=
   hdr_dollar_via_alloc_stack && hdr_static_type_null && hdr_typeof_null_is_type &&
   hdr_dealloc_check_first && hdr_dealloc_custom_first && hdr_del_by_gc &&
   hdr_alloc_custom_first && hdr_copy_default_allocs && hdr_sweep_rule && hdr_rem_releases && hdr_rem_deferred_when_stopped &&
-  hdr_tuple_rem_via_pop_at &&
+  hdr_tuple_rem_via_pop_at && hdr_dealloc_frees_block &&
   Nat.eqb hdr_sites_count 9 &&      (* every header_init call site is one of the producers below *)
   Nat.eqb hdr_guards_count 14.      (* every function that frees/reallocates a String/Tuple buffer is a gfn (+ unused String_Clear) *)
 
